@@ -27,7 +27,7 @@ import lexer as LX
 
 NE = "crates/apollo-parser/src/cst/node_ext.rs"
 
-PRELUDE = LX.section("hex") + LX.section("char_classes") + LX.section("string_grammar") + r'''
+SHIMS = r'''
 // ---------------- std specs (assumed) ----------------
 pub assume_specification[ char::to_digit ](c: char, radix: u32) -> (r: Option<u32>)
     ensures radix == 16 ==> (r is Some <==> hexdigit(c)) && (r is Some ==> r->0 as int == hexval(c));
@@ -49,6 +49,10 @@ pub fn string_with_capacity(s: &str) -> (r: String) ensures r@ == Seq::<char>::e
 #[verifier::external_body]
 pub fn string_push(s: &mut String, c: char) ensures final(s)@ == old(s)@.push(c) { unimplemented!() }
 
+'''
+
+# the static semantics of a quoted StringValue; shared (as text) with unit serialize_string
+DECODE_SPEC = r'''
 // ---------------- specification: https://spec.graphql.org/October2021/#sec-String-Value (static semantics) ----------------
 /// \ EscapedCharacter: the character it denotes (table in the spec)
 pub open spec fn simple_escape(c: char) -> Option<char> {
@@ -75,6 +79,9 @@ pub open spec fn decoded(s: Seq<char>) -> Seq<char> decreases s.len() {
     else { Seq::<char>::empty() }
 }
 
+'''
+
+LINK = r'''
 // ---- the lexer's (left-linear) grammar of a quoted string implies the (right-linear) validity that unescape_string relies on ----
 pub open spec fn pre(s: Seq<char>, k: int) -> Seq<char> { s.subrange(1, s.len() - k) }
 pub proof fn lemma_valid_concat(a: Seq<char>, b: Seq<char>)
@@ -141,6 +148,8 @@ pub proof fn lemma_lexer_accepts_only_decodable_strings(s: Seq<char>)
     if q_open(d) { assert(s.subrange(1, s.len() - 1).len() == 0); } else { assert(s.subrange(1, s.len() - 1) =~= pre(d, 0)); }
 }
 '''
+
+PRELUDE = LX.section("hex") + LX.section("char_classes") + LX.section("string_grammar") + SHIMS + DECODE_SPEC + LINK
 
 FOLD_LOOP = ("{ let mut acc = 0; let mut n: usize = 0; while n < 4 { match iter.next() { Some(c) => { acc = \\1; } None => break } n += 1; } acc };")
 
